@@ -390,6 +390,7 @@ def run(repo: Repo, ctx) -> None:
 
     _r6(repo, ctx)
     _r7(repo, ctx)
+    _r8(repo, ctx)
 
 
 ZERO_LOWER = ('AT_MOST_ONE', 'MANY')
@@ -899,3 +900,117 @@ def _name_arms(fn: FuncInfo, var: Optional[str] = None) -> Dict[str, list]:
         if found:
             break
     return out
+
+
+def _r8(repo: Repo, ctx) -> None:
+    """C06.R8 three more facts that set semantics forces.
+
+    (a) IF..ELSE yields the selected branch only, so it can be empty as soon
+        as *either* branch can: the arm for std::IF must not combine the
+        branches with max_cardinality (which takes the larger lower bound;
+        `1 IF <bool>$c ELSE <int64>{}` would be reported ONE and be empty).
+    (b) a set literal is known duplicate-free only when every element is a
+        compile-time constant whose value is compared: an element whose
+        value is not known (a parameter) makes it DUPLICATE
+        (`{<int64>$a, <int64>$b}` with a = b).
+    (c) Pointer.is_exclusive answers from get_exclusive_constraints (or
+        applies every exclusion that function applies): a delegated
+        constraint is enforced per subtype only, so an abstract pointer
+        carrying one is not exclusive across subtypes."""
+    ctx.floor('C06.R8', 3)
+    oc = None
+    for f in repo.modules[CARD].functions.values():
+        if f.name.endswith('infer_oper_call'):
+            oc = f
+    if oc is None:
+        raise AnalysisError('C06.R8: __infer_oper_call not found')
+    ctx.saw(oc)
+    arm = None
+    for n in ast.walk(oc.node):
+        if isinstance(n, ast.If) and "'std::IF'" in norm(n.test):
+            arm = n
+    if arm is None:
+        raise AnalysisError('C06.R8: std::IF arm not found')
+    # the arm that is taken when the name is std::IF
+    calls = [(call_name(c) or '').rsplit('.', 1)[-1]
+             for st in arm.body for c in ast.walk(st)
+             if isinstance(c, ast.Call)]
+    ctx.ob('C06.R8', 'cardinality:std::IF:lower-bound',
+           'max_cardinality' not in calls,
+           f'the std::IF arm combines operands with max_cardinality: the '
+           f'lower bound becomes the larger of the two branches\' lower '
+           f'bounds although the possibly-empty branch may be the one '
+           f'selected (reported ONE, evaluates to the empty set)',
+           f'{oc.module.rel()}:{arm.lineno}', sample=sorted(set(calls)))
+    # (b)
+    cs = None
+    for f in repo.modules[MULT].functions.values():
+        if f.name.endswith('infer_const_set'):
+            cs = f
+    if cs is None:
+        raise AnalysisError('C06.R8: __infer_const_set not found')
+    ctx.saw(cs)
+    bad = []
+    n_add = 0
+
+    def scan(stmts, classes):
+        nonlocal n_add
+        for st in stmts:
+            if isinstance(st, ast.If):
+                ks = []
+                for c in ast.walk(st.test):
+                    if isinstance(c, ast.Call) and call_name(c) == \
+                            'isinstance' and len(c.args) == 2:
+                        t = c.args[1]
+                        for x in (t.elts if isinstance(t, ast.Tuple)
+                                  else [t]):
+                            ks.append(repo.resolve_expr(cs.module, x))
+                scan(st.body, ks or classes)
+                scan(st.orelse, classes)
+            elif isinstance(st, (ast.For, ast.While)):
+                scan(st.body, classes)
+            else:
+                for c in ast.walk(st):
+                    if isinstance(c, ast.Call) and isinstance(
+                            c.func, ast.Attribute) and c.func.attr == 'add':
+                        n_add += 1
+                        if not classes or not all(
+                                k and repo.issubclass(k, f'{IR}.BaseConstant')
+                                for k in classes):
+                            bad.append(sorted(str(k).rsplit('.', 1)[-1]
+                                              for k in classes))
+    scan(cs.node.body, [])
+    if not n_add:
+        raise AnalysisError('C06.R8: element set of __infer_const_set '
+                            'not found')
+    ctx.ob('C06.R8', 'multiplicity:const-set:only-known-values', not bad,
+           f'__infer_const_set counts elements of class {bad} as distinct '
+           f'values: their run-time values are unknown, two of them can be '
+           f'equal and the literal then contains a duplicate although it is '
+           f'reported UNIQUE', cs.loc, sample='isinstance(el, BaseConstant)')
+    # (c)
+    pc = repo.cls('edb.schema.pointers.Pointer')
+    ie = pc.methods.get('is_exclusive')
+    ge = pc.methods.get('get_exclusive_constraints')
+    if ie is None or ge is None:
+        raise AnalysisError('C06.R8: Pointer.is_exclusive / '
+                            'get_exclusive_constraints not found')
+    ctx.saw(ie)
+    def last(c):
+        return (call_name(c) or '').rsplit('.', 1)[-1]
+    delegates = any(isinstance(c, ast.Call) and last(c) ==
+                    'get_exclusive_constraints' for c in ast.walk(ie.node))
+    # the exclusions applied per constraint (the loop's test)
+    filt = {last(c) for lp in ast.walk(ge.node) if isinstance(lp, ast.For)
+            for t in ast.walk(lp) if isinstance(t, ast.If)
+            for c in ast.walk(t.test) if isinstance(c, ast.Call)}
+    mine = {last(c) for c in ast.walk(ie.node) if isinstance(c, ast.Call)}
+    ctx.ob('C06.R8', 'Pointer.is_exclusive:same-exclusions',
+           delegates or filt <= mine,
+           f'is_exclusive neither asks get_exclusive_constraints nor '
+           f'applies all of its exclusions (missing '
+           f'{sorted(filt - mine)}): a pointer whose only exclusive '
+           f'constraint is delegated (enforced per subtype) is treated as '
+           f'exclusive across subtypes, and a backlink / path through the '
+           f'abstract type is reported AT_MOST_ONE / UNIQUE wrongly',
+           ie.loc, sample=sorted(filt))
